@@ -441,11 +441,55 @@ def r05_4_construct_typing(ctx):
 from sa.astutil import walk_local  # noqa: E402
 
 
+def r05_7_typed_variables(ctx):
+    from rules.abicommon import AbiWorld
+
+    ctx.rule("R05.7", "both implementations of AbstractVar are typed alike: store(value) on a variable of storage type T refuses exactly the values the reference compatibility relation refuses for T, load() has type T, storage_type() is T - for ScratchVar (scratch slots) and FrameVar (frame cells, the storage of every ABI value inside a frame-pointer routine)")
+    types = ["none", "uint64", "bytes", "anytype"]
+    mods = ["pyteal.ast.frame", "pyteal.types", "pyteal.ast.scratchvar", "pyteal.ast.scratch", "pyteal.ast.abstractvar"]
+    real = {"FrameVar", "FrameBury", "FrameDig", "ScratchVar", "ScratchSlot", "ScratchLoad", "ScratchStore"}
+    for cname, module in (("FrameVar", "pyteal.ast.frame"), ("ScratchVar", "pyteal.ast.scratchvar")):
+        c = ctx.model.find_class(cname, module)
+        ctx.analysed(c.fq + ".store", c.fq + ".load")
+        for vt in types[1:]:
+            W = AbiWorld(ctx, modules=mods, real_classes=real)
+            TT = W.me.ev(ast.parse("TealType", mode="eval").body)
+            tsym = {t: TT.attrs[t] for t in types}
+            try:
+                if cname == "FrameVar":
+                    layout = Sym("layout", methods={"__getitem__": lambda i: tsym[vt]})
+                    var = W.construct("FrameVar", [Sym("proto", attrs={"mem_layout": layout}), 1], {})
+                else:
+                    var = W.construct("ScratchVar", [tsym[vt]], {})
+            except Raised as r:
+                ctx.bad("R05.7", f"{cname}[{vt}]", f"cannot be constructed: {r.exc_text[:60]}", c.where)
+                continue
+            st = var.methods["storage_type"]()
+            ctx.check(st is tsym[vt], "R05.7", f"{cname}[{vt}].storage_type", f"storage_type() is {st!r}", c.where, fact={})
+            try:
+                ld = var.methods["load"]()
+                lt = ld.methods["type_of"]() if isinstance(ld, Sym) and "type_of" in ld.methods else None
+            except Raised as r:
+                lt = f"raises {r.exc_text[:40]}"
+            ctx.check(lt is tsym[vt], "R05.7", f"{cname}[{vt}].load", f"load() has type {lt!r}; the variable holds {vt}", c.where, fact={})
+            for at in types:
+                value = Sym(f"value:{at}", attrs={"$isa": {"Expr"}}, methods={"type_of": lambda at=at: tsym[at], "has_return": lambda: False})
+                try:
+                    var.methods["store"](value)
+                    accepted = True
+                except Raised as r:
+                    accepted = False
+                want = ref_require_ok(at, vt)
+                ctx.check(accepted == want, "R05.7", f"{cname}[{vt}].store[{at}]", f"store(<{at}>) into a {vt} variable is {'accepted' if accepted else 'refused'}; the reference relation says {'accept' if want else 'refuse'}", c.where, fact={"accepted": accepted})
+    ctx.require_min("R05.7", 36)
+
+
 def run(ctx):  # noqa: F811
     r05_1_operand_typing(ctx)
     r05_1b_lowered_params(ctx)
     r05_2_result_typing(ctx)
     r05_3_literal_op_lists(ctx)
+    r05_7_typed_variables(ctx)
     r05_4_construct_typing(ctx)
     r05_6_type_relation(ctx)
     from rules import c02 as _c02, c03 as _c03
@@ -453,6 +497,8 @@ def run(ctx):  # noqa: F811
     _c02.r02_3_spill(ctx)  # spill sequences are stack-neutral around callsub (shared with C02)
     _c03.r03_2_dependency_scan(ctx)  # optimiser deletions (shared with C03)
     _c03.r03_3_cancellation(ctx)
+    _c03.r03_1_skip_set(ctx)  # which stores the optimiser may not delete: a deleted store of a shared slot leaves its value on the stack (shared with C03)
+    _c02.r02_2_convention(ctx)  # routine prologue pops exactly its own arguments / reads them through the frame (shared with C02)
     return (
         "Every emission site (class-level and factory-level, path-sensitive partial evaluation of constructors and __teal__) is typed against the op signature of the AVM "
         "reference table under the require_type constraints that dominate it; declared result types equal the op's pushes; hand-written op lists (WideRatio, Suffix, DupN, frame "
